@@ -587,7 +587,7 @@ func (x *Exec) loadArray(st *State, obj, off *Term, u *types.Array) Value {
 			// shifted view: only supported through a fresh array with a defining quantifier
 			na := b.Fresh("arrview", SArr(SInt, es))
 			i := b.Var("i!v", SInt)
-			st.assume(b.Forall([]*Term{i}, b.Implies(b.And(b.Le(b.Int(0), i), b.Lt(i, b.Int(u.Len()))),
+			st.assumeDef(x, b.Forall([]*Term{i}, b.Implies(b.And(b.Le(b.Int(0), i), b.Lt(i, b.Int(u.Len()))),
 				b.Eq(b.mk("select", es, "", nil, na, i), b.mk("select", es, "", nil, arr, b.Add(off, i))))))
 			arr = na
 		}
@@ -777,7 +777,7 @@ func (x *Exec) storeArray(st *State, obj, off *Term, u *types.Array, av ArrayV) 
 		na := b.Fresh("arrst", SArr(SInt, es))
 		i := b.Var("i!s", SInt)
 		in := b.And(b.Le(off, i), b.Lt(i, b.Add(off, b.Int(u.Len()))))
-		st.assume(b.Forall([]*Term{i}, b.Eq(b.mk("select", es, "", nil, na, i),
+		st.assumeDef(x, b.Forall([]*Term{i}, b.Eq(b.mk("select", es, "", nil, na, i),
 			b.Ite(in, b.mk("select", es, "", nil, av.Arr, b.Sub(i, off)), b.mk("select", es, "", nil, cur, i)))))
 		st.setHeap(hn, b.Store(h, obj, na), obj)
 		return
